@@ -257,6 +257,22 @@ Example C03_ex3_every_member_counts :
   evaln env3 (b_IN n0 (NList [n1])) = VInt 0.
 Proof. vm_compute. auto. Qed.
 
+(* float constants keep their REAL typing: (n0 / 2.0) is a real division, (n0 / 2) an integer one *)
+Definition ex4 : node :=
+  py_binop PGt (py_binop PDiv n0 (NAtom (AFlo 4))) (py_binop PDiv (NAtom (AFlo (-1))) (py_unop UNeg n1)).
+Definition env4 : env :=
+  {| e_col := fun c => match c with Col TyNum 0%N => VInt 5 | Col TyNum 1%N => VInt 2 | _ => VNull end;
+     e_sub := fun _ => [] |}.
+Example C03_ex4_float :
+  wt_filter ex4 = true /\
+  show (render Sqlite ex4) = codes "(((c03t.n0) / (2.0)) > ((-0.5) / (- c03t.n1)))"%string /\
+  parse_rendered std_table (render Sqlite ex4) = Parsed (denote ex4) /\
+  lex (schema_words harness_cols) (show (render Sqlite ex4)) = LOk (sql_tokens (render Sqlite ex4)) /\
+  evaln env4 (py_binop PDiv n0 (NAtom (AFlo 4))) = VReal (QArith_base.Qdiv (QArith_base.inject_Z 5) (QArith_base.Qmake 4 2)) /\
+  evaln env4 (py_binop PDiv n0 (NAtom (AInt 2))) = VInt 2 /\
+  selected (evaln env4 ex4) = true.
+Proof. vm_compute. auto 10. Qed.
+
 (* IN-subqueries in every position *)
 Definition ex2 : node :=
   b_AND [b_IN (py_binop PAdd n0 (NAtom (AInt 1))) (NSelect 0);
